@@ -16,7 +16,7 @@ ID = "C09"
 LEVEL = "exploration"
 BUDGET = {"quick": {"cases": 16000}, "thorough": {"cases": 300000, "soft_deadline": 1500}}
 RULE = (
-    "case = (network n<=6 [8 thorough] from the family mixture, solver kind trappist|reduced-STG, problem, "
+    "case = (network n<=6 [8 thorough] from the family mixture, solver kind trappist|reduced-STG|trappist on a net restricted to a percolated trap space, problem, "
     "time direction, ensure space, avoid spaces, source-variable list, solution limit, input form BooleanNetwork|Petri net); "
     "oracle = brute-force family over all 3^n subspaces; non-trivial = unconstrained answer has >=2 members and the "
     "constraints (ensure/avoid/source list/retained set) change the answer; distinct by canonical JSON of the case"
@@ -29,11 +29,20 @@ ASSUMPTIONS = ["'max' is only asked with >=1 free variable in the ensure space a
 def _case(draw, max_n):
     nj = draw(gen.networks(max_n=max_n, core_weight=1))
     n = len(nj["names"])
-    kind = draw(st.sampled_from(("trappist", "trappist", "rstg")))
+    kind = draw(st.sampled_from(("trappist", "trappist", "rstg", "rpn")))
     case = {"net": nj, "kind": kind}
     has_free = any(t is None for t in nj["tables"])
     case["form"] = draw(st.sampled_from(("api", "pn") if has_free else ("bnet", "api", "pn")))
     case["limit"] = draw(st.sampled_from((None, None, None, 0, 1, 2, 5)))
+    if kind == "rpn":
+        # trappist on the Petri net RESTRICTED to a percolated trap space (the form used by the succession diagram)
+        case["trap_pick"] = draw(st.integers(0, 1000))
+        case["problem"] = draw(st.sampled_from(("min", "max", "fix")))
+        case["ensure_sp"] = draw(st.one_of(st.just([None] * n), gen.spaces_of(n, p_fixed=0.3)))
+        case["avoid_sps"] = []
+        case["optsrc_vars"] = draw(st.sampled_from((None, [])))
+        case["form"] = "pn"
+        return case
     if kind == "trappist":
         problem = draw(st.sampled_from(("min", "max", "fix")))
         case["problem"] = problem
@@ -116,6 +125,9 @@ def exhaustive(tier):
 def describe(case):
     net = net_of(case)
     s = f"{bnet_text(case['net'])} | {case['kind']}"
+    if case["kind"] == "rpn":
+        s += f" {case['problem']} trap_pick={case['trap_pick']} optsrc={case.get('optsrc_vars')}"
+        return s + f" ensure={fmt_space(net, case['ensure_sp'])} limit={case['limit']}"
     if case["kind"] == "trappist":
         s += f" {case['problem']} reverse={case['reverse']} optsrc={case.get('optsrc_vars')}"
     else:
@@ -139,7 +151,36 @@ def run_case(case) -> Result:
     kind = case["kind"]
     res.label(f"kind={kind}", f"form={form}", f"n={n}")
     try:
-        if kind == "trappist":
+        if kind == "rpn":
+            from biobalm.petri_net_translation import restrict_petrinet_to_subspace
+
+            traps = net.trap_spaces()
+            T = net.perc(traps[case["trap_pick"] % len(traps)])
+            sub, free = net.restrict(T)
+            if sub.n == 0:
+                res.excluded = "rpn_fixed_point"
+                return res
+            problem = case["problem"]
+            ens_sub = tuple(ensure[i] for i in free)
+            if problem == "max" and all(v is not None for v in ens_sub):
+                ens_sub = tuple(None if k == 0 else v for k, v in enumerate(ens_sub))
+            opt = case["optsrc_vars"]
+            pn = call(network_to_petrinet, bn)
+            rpn = call(restrict_petrinet_to_subspace, pn, net.sp2d(T))
+            got = call(
+                trappist,
+                rpn,
+                problem=problem,
+                solution_limit=limit,
+                ensure_subspace=sub.sp2d(ens_sub),
+                optimize_source_variables=None if opt is None else [],
+            )
+            expected = sub.trappist(problem, ensure=ens_sub, opt_sources=None if opt is None else [])
+            uncon = sub.trappist(problem)
+            tag = f"rpn:{problem}"
+            res.label(f"rpn/{problem}")
+            net = sub  # results are spaces of the sub-network
+        elif kind == "trappist":
             problem = case["problem"]
             rev = case["reverse"]
             opt = case["optsrc_vars"]
